@@ -449,6 +449,8 @@ def execute(arg):
 
     plan = arg["plan"]
     sim = Sim(arg["run_seed"], tape=arg.get("tape"), strict=arg.get("strict", False))
+    if arg.get("plan_retries"):
+        sim.count("plan_generation_retries", arg["plan_retries"])
     install_seams(arg["run_seed"])
     _pin_clock()
     root = os.path.join(lanes.scratch_root(), "fs")
